@@ -382,7 +382,34 @@ func c06Scenario(c c06Case, limit int) vx.ScheduleScenario {
 				if o.Deadlock || o.StepCap {
 					return "C06:hang", strings.Join(o.Blocked, "; ")
 				}
-				return c06Judge(c, w, obs)
+				fp, detail := c06Judge(c, w, obs)
+				if fp == "" {
+					// observation class (outcome histogram): where the transaction ended
+					refused, quarantined := 0, false
+					for _, e := range obs.rcptErr {
+						if e != nil {
+							refused++
+						}
+					}
+					for _, t := range w.tgt {
+						if t != nil {
+							for _, q := range t.quarantineAtBody {
+								quarantined = quarantined || q
+							}
+						}
+					}
+					switch {
+					case obs.mailErr != nil:
+						o.Note = "MAIL refused"
+					case refused == len(c.Rcpts):
+						o.Note = "every RCPT refused"
+					case obs.bodyErr != nil:
+						o.Note = fmt.Sprintf("message refused at body stage (%d RCPT refused)", refused)
+					default:
+						o.Note = fmt.Sprintf("delivered (%d RCPT refused, quarantined=%v, per-recipient path=%v)", refused, quarantined, c.NonAtomic)
+					}
+				}
+				return fp, detail
 			},
 		}
 	}}
